@@ -193,6 +193,29 @@ func verifyFunc(p *Program, fn *ssa.Function, fc *FuncContract) (u *UnitResult) 
 		o.props = en.Props
 		o.clause = en
 	}
+	// guarded known findings: the obligation is claimed outside the guard; inside it a probe is expected to fail
+	for i := range p.Known {
+		kf := &p.Known[i]
+		if kf.Status != "open" || kf.Guard == "" {
+			continue
+		}
+		for _, o := range append([]*Obligation{}, vc.obls...) {
+			if o.Name != kf.Obligation {
+				continue
+			}
+			ge, err := parseSpec(kf.Guard)
+			if err != nil {
+				stale("known finding guard %q: %v", kf.Guard, err)
+			}
+			g := fr.specEnv(fr.entry, nil).evalBool(ge)
+			probe := *o
+			probe.Name = o.Name + "@inside-known-guard"
+			probe.Extra = append(append([]string{}, o.Extra...), "(assert "+g+")")
+			probe.knownProbe = kf
+			vc.obls = append(vc.obls, &probe)
+			o.Extra = append(o.Extra, "(assert (not "+g+"))")
+		}
+	}
 	if fc.Pure {
 		// a pure function must not write caller-visible memory: its frame.* obligations (modifies nothing) cover that.
 	}
